@@ -95,7 +95,14 @@ class Graph:
 
     # ---- edge labels
     def strict(self, u, v):
-        return any(not o['conds'] for o in self.edge[u][v])
+        """v is always consumed by u's formula.  (A member of a multi-cell
+        rectangle outside an aggregate may or may not be used: the fitting of
+        the array to the cell decides - neither strict nor lazy.)"""
+        return any(not o['conds'] and (not o['multi'] or o['agg'])
+                   for o in self.edge[u][v])
+
+    def lazy(self, u, v):
+        return all(o['conds'] for o in self.edge[u][v])
 
     def prop(self, u, v):
         """Errors of v always reach u's result."""
